@@ -179,6 +179,8 @@ impl Unifiable {
                         None
                     },
                     Unifiable::LogicVar{id: _, name: _} => { other.unify(&self, ss) },
+                    // The unify method of a function evaluates the function.
+                    Unifiable::SFunction{name: _, terms: _} => { other.unify(&self, ss) },
                     Unifiable::Anonymous => { return Some(Rc::clone(ss)); },
                     _ => None,
                 }
@@ -190,6 +192,8 @@ impl Unifiable {
                         None
                     },
                     Unifiable::LogicVar{id: _, name: _} => { other.unify(&self, ss) },
+                    // The unify method of a function evaluates the function.
+                    Unifiable::SFunction{name: _, terms: _} => { other.unify(&self, ss) },
                     Unifiable::Anonymous => { return Some(Rc::clone(ss)); },
                     _ => None,
                 }
@@ -201,6 +205,8 @@ impl Unifiable {
                         None
                     },
                     Unifiable::LogicVar{id: _, name: _} => { other.unify(&self, ss) },
+                    // The unify method of a function evaluates the function.
+                    Unifiable::SFunction{name: _, terms: _} => { other.unify(&self, ss) },
                     Unifiable::Anonymous => { return Some(Rc::clone(ss)); },
                     _ => None,
                 }
